@@ -58,221 +58,507 @@ Qed.
 Lemma rule_param_to_rparam p : rule_param p = to_rparam p.
 Proof. destruct p; reflexivity. Qed.
 
+(* ================= lists ================= *)
+Lemma upd_nth {A} (x : A) : forall i l j,
+  nth_error (upd i x l) j =
+  if Nat.eqb i j then match nth_error l j with Some _ => Some x | None => None end
+  else nth_error l j.
+Proof.
+  induction i as [|i IH]; intros [|y r] [|j]; simpl; try reflexivity.
+  - destruct (Nat.eqb i j); reflexivity.
+  - apply IH.
+Qed.
+
+Lemma upd_length {A} (x : A) : forall i l, length (upd i x l) = length l.
+Proof. induction i as [|i IH]; intros [|y r]; simpl; try reflexivity. rewrite IH. reflexivity. Qed.
+
+Lemma Forall2_upd {A B} (R : A -> B -> Prop) : forall i l l' a y,
+  Forall2 R l l' -> nth_error l i = Some a -> R a y -> Forall2 R l (upd i y l').
+Proof.
+  induction i as [|i IH]; intros l l' a y H N Ry; destruct H as [|a0 b0 l l' R0 H]; simpl in *;
+    try discriminate.
+  - inv N. constructor; assumption.
+  - constructor; [exact R0 | eapply IH; eassumption].
+Qed.
+
+Lemma Forall2_nth {A B} (R : A -> B -> Prop) : forall l l' i b,
+  Forall2 R l l' -> nth_error l' i = Some b -> exists a, nth_error l i = Some a /\ R a b.
+Proof.
+  intros l l' i b H. revert i. induction H as [|a0 b0 l l' R0 H IH]; intros [|i] N; simpl in *;
+    try discriminate.
+  - inv N. eauto.
+  - apply IH. exact N.
+Qed.
+
 Section ProgProofs.
-  Variable rules : Z -> option rule.
-  Variable dflt : option rule.
+  Variable F : Type.
+  Variable pinterp : F -> rule F.
+  Variable dflt : option (rule F).
 
-  Notation enter := (enter rules dflt).
-  Notation eval := (eval rules dflt).
-  Notation tstep := (tstep rules dflt).
-  Notation iter := (iter rules dflt).
-  Notation start := (start rules dflt).
-  Notation pstep := (pstep rules dflt).
-  Notation prun := (prun rules dflt).
+  Notation enter := (enter F pinterp dflt).
+  Notation eval := (eval F pinterp dflt).
+  Notation tstep := (tstep F pinterp dflt).
+  Notation begin := (begin F pinterp dflt).
+  Notation iter := (iter F pinterp dflt).
+  Notation pexec := (pexec F pinterp dflt).
+  Notation prun := (prun F pinterp dflt).
+  Notation macro := (macro F pinterp dflt).
+  Notation run_one := (run_one F pinterp dflt).
+  Notation sim_sched := (sim_sched F pinterp dflt).
+  Notation sim_rr := (sim_rr F pinterp dflt).
+  Notation sim := (sim F pinterp dflt).
 
-  Lemma enter_inr ty p rp pc :
-    enter ty p = inr (rp, pc) ->
-    to_rparam p = Some rp /\ exists r, pickr (rules ty) dflt = Some r /\ pc = r ty.
+  Lemma enter_inr tab ty p rp pc :
+    enter tab ty p = inr (rp, pc) ->
+    to_rparam p = Some rp
+    /\ exists r, pickr (option_map pinterp (aget ty tab)) dflt = Some r /\ pc = r ty.
   Proof.
     unfold Model.enter.
     destruct p as [|d|d|n|k]; simpl; try discriminate;
-      destruct (pickr (rules ty) dflt) as [r|]; try discriminate;
+      destruct (pickr (option_map pinterp (aget ty tab)) dflt) as [r|]; try discriminate;
       intro E; inv E; split; try reflexivity; exists r; auto.
   Qed.
 
   (* ================= one step at a time ================= *)
-  Lemma iter_add a : forall b t, iter (a + b) t = iter b (iter a t).
-  Proof. induction a as [|a IH]; intros b t; simpl; [reflexivity | apply IH]. Qed.
+  Lemma iter_add a : forall b s, iter (a + b) s = iter b (iter a s).
+  Proof. induction a as [|a IH]; intros b s; simpl; [reflexivity | apply IH]. Qed.
 
-  Lemma iter_done k n tr : iter k (TDone n tr) = TDone n tr.
+  Lemma iter_done k tab n tr : iter k (tab, TDone n tr) = (tab, TDone n tr).
   Proof. induction k as [|k IH]; simpl; [reflexivity | exact IH]. Qed.
 
-  Lemma iter_S k t : iter (S k) t = iter k (tstep t).
+  Lemma iter_S k tab t : iter (S k) (tab, t) = iter k (tstep tab t).
   Proof. reflexivity. Qed.
 
-  (* ---- the frame theorem: a goroutine's progress depends on its own steps only ---- *)
-  Lemma pstep_nth i : forall pool j,
-    nth_error (pstep i pool) j =
-    if Nat.eqb i j then option_map tstep (nth_error pool j) else nth_error pool j.
+  (* ---- the frame theorem: a step of goroutine j changes goroutine j and the registered
+          rules, nothing else; what goroutine j becomes depends on the registered rules and
+          on ITS OWN state only ---- *)
+  Lemma pexec_nth st e i :
+    nth_error (snd (pexec st e)) i =
+    match e with
+    | XRun j => if Nat.eqb j i then option_map (fun t => snd (tstep (fst st) t)) (nth_error (snd st) i)
+                else nth_error (snd st) i
+    | XReg _ _ => nth_error (snd st) i
+    end.
   Proof.
-    induction i as [|i IH]; intros [|t r] [|j]; simpl; try reflexivity.
-    - destruct (Nat.eqb i j); reflexivity.
-    - apply IH.
+    destruct e as [j|ty f]; [|reflexivity]. unfold Model.pexec.
+    destruct (nth_error (snd st) j) as [t|] eqn:N; simpl.
+    - rewrite upd_nth. destruct (Nat.eqb_spec j i) as [->|_]; [|reflexivity].
+      rewrite N. reflexivity.
+    - destruct (Nat.eqb_spec j i) as [->|_]; [|reflexivity]. rewrite N. reflexivity.
   Qed.
 
-  Lemma prun_nth sched : forall pool j,
-    nth_error (prun sched pool) j = option_map (iter (ncount j sched)) (nth_error pool j).
+  (* the registered rules are written by Register only *)
+  Lemma tstep_tab tab t :
+    fst (tstep tab t) =
+    match t with TRun _ _ (PReg ty f _) _ _ => treg ty f tab | _ => tab end.
   Proof.
-    unfold Model.prun. induction sched as [|x r IH]; intros pool j; simpl.
-    - destruct (nth_error pool j); reflexivity.
-    - rewrite IH, pstep_nth. destruct (Nat.eqb x j); simpl.
-      + destruct (nth_error pool j); reflexivity.
-      + reflexivity.
+    destruct t as [k|ty rp pc stk tr|n tr]; try reflexivity.
+    destruct pc as [r|key c|c|cty p c|rty f c|c]; simpl; try reflexivity.
+    - destruct rp; reflexivity.
+    - destruct (enter tab cty p) as [n|[rp2 pc2]]; reflexivity.
   Qed.
 
-  Lemma prun_length sched : forall pool, length (prun sched pool) = length pool.
+  (* ---- when nobody registers, a goroutine is where its own steps alone take it ---- *)
+  Fixpoint regfree (pc : prog F) : Prop :=
+    match pc with
+    | PRet _ => True
+    | PGet _ c => forall v, regfree (c v)
+    | PKind c => forall k, regfree (c k)
+    | PCall _ _ c => forall n, regfree (c n)
+    | PReg _ _ _ => False
+    | PYield c => regfree c
+    end.
+
+  Definition rules_regfree (tab : alist F) : Prop :=
+    (forall ty f t, aget ty tab = Some f -> regfree (pinterp f t))
+    /\ (forall r t, dflt = Some r -> regfree (r t)).
+
+  Definition wait_regfree (w : wait F) : Prop := let '(W _ _ c _) := w in forall n, regfree (c n).
+
+  Definition thread_regfree (t : thread F) : Prop :=
+    match t with
+    | TRun _ _ pc stk _ => regfree pc /\ Forall wait_regfree stk
+    | _ => True
+    end.
+
+  Lemma enter_regfree tab ty p rp pc :
+    rules_regfree tab -> enter tab ty p = inr (rp, pc) -> regfree pc.
   Proof.
-    assert (L : forall i pool, length (pstep i pool) = length pool).
-    { induction i as [|i IH]; intros [|t r]; simpl; try reflexivity. rewrite IH. reflexivity. }
-    unfold Model.prun. induction sched as [|x r IH]; intro pool; simpl; [reflexivity|].
-    rewrite IH. apply L.
+    intros [Rt Rd] E. apply enter_inr in E. destruct E as [_ [r [P ->]]].
+    unfold pickr in P. destruct (aget ty tab) as [f|] eqn:A; simpl in P.
+    - inv P. eapply Rt. exact A.
+    - eapply Rd. exact P.
+  Qed.
+
+  Lemma ret_regfree n stk tr : Forall wait_regfree stk -> thread_regfree (ret n stk tr).
+  Proof.
+    intro H. destruct stk as [|[ty rp c cty] s]; simpl; [exact I|].
+    inversion H as [|? ? Hw Hs]; subst. split; [apply Hw | exact Hs].
+  Qed.
+
+  Lemma tstep_regfree tab t :
+    rules_regfree tab -> thread_regfree t ->
+    fst (tstep tab t) = tab /\ thread_regfree (snd (tstep tab t)).
+  Proof.
+    intros R T. destruct t as [k|ty rp pc stk tr|n tr].
+    - split; [reflexivity|]. simpl. destruct k as [[ty p]|]; simpl; [|exact I].
+      destruct (enter tab ty p) as [n|[rp pc]] eqn:E; simpl; [exact I|].
+      split; [eapply enter_regfree; eassumption | constructor].
+    - destruct T as [Tp Ts].
+      destruct pc as [r|key c|c|cty p c|rty f c|c]; simpl in *.
+      + split; [reflexivity | apply ret_regfree; exact Ts].
+      + destruct rp as [|dd|dd]; simpl.
+        * split; [reflexivity | apply ret_regfree; exact Ts].
+        * split; [reflexivity|]. split; [apply Tp | exact Ts].
+        * split; [reflexivity|]. split; [apply Tp | exact Ts].
+      + split; [reflexivity|]. split; [apply Tp | exact Ts].
+      + destruct (enter tab cty p) as [n|[rp2 pc2]] eqn:E; simpl; (split; [reflexivity|]).
+        * split; [apply Tp | exact Ts].
+        * split; [eapply enter_regfree; eassumption|]. constructor; [exact Tp | exact Ts].
+      + contradiction.
+      + split; [reflexivity|]. split; [exact Tp | exact Ts].
+    - split; [reflexivity | exact I].
+  Qed.
+
+  Lemma iter_regfree tab : rules_regfree tab ->
+    forall k t, thread_regfree t ->
+    fst (iter k (tab, t)) = tab /\ thread_regfree (snd (iter k (tab, t))).
+  Proof.
+    intros R k. induction k as [|k IH]; intros t T; [split; [reflexivity | exact T]|].
+    rewrite iter_S. destruct (tstep_regfree tab t R T) as [E T'].
+    rewrite (surjective_pairing (tstep tab t)), E. apply IH. exact T'.
+  Qed.
+
+  Lemma Forall_upd {A} (P : A -> Prop) : forall i (x : A) l, Forall P l -> P x -> Forall P (upd i x l).
+  Proof.
+    induction i as [|i IH]; intros x l H Px; destruct H as [|y r Py Hr]; simpl; try constructor;
+      try assumption. apply IH; assumption.
+  Qed.
+
+  Lemma prun_regfree tab : rules_regfree tab ->
+    forall sched pool, forallb is_run sched = true -> Forall thread_regfree pool ->
+    fst (prun sched (tab, pool)) = tab
+    /\ forall i, nth_error (snd (prun sched (tab, pool))) i
+                 = option_map (fun t => snd (iter (ncount i sched) (tab, t))) (nth_error pool i).
+  Proof.
+    intro R. unfold Model.prun.
+    induction sched as [|e r IH]; intros pool Hs Hp; simpl.
+    - split; [reflexivity|]. intro i. destruct (nth_error pool i); reflexivity.
+    - destruct e as [x|ty f]; [|discriminate]. simpl in Hs.
+      unfold Model.pexec at 2 4. cbn [fst snd].
+      destruct (nth_error pool x) as [t|] eqn:N.
+      + assert (Tt : thread_regfree t).
+        { rewrite Forall_forall in Hp. apply Hp. eapply nth_error_In. exact N. }
+        destruct (tstep_regfree tab t R Tt) as [E T'].
+        rewrite E.
+        destruct (IH (upd x (snd (tstep tab t)) pool) Hs (Forall_upd _ _ _ _ Hp T')) as [E1 E2].
+        split; [exact E1|]. intro i. rewrite E2, upd_nth.
+        cbn [ncount]. destruct (Nat.eqb_spec x i) as [->|Nx].
+        * rewrite N. cbn [option_map]. change (1 + ncount i r)%nat with (S (ncount i r)).
+          rewrite iter_S, (surjective_pairing (tstep tab t)), E. reflexivity.
+        * reflexivity.
+      + destruct (IH pool Hs Hp) as [E1 E2]. split; [exact E1|]. intro i. rewrite E2.
+        cbn [ncount]. destruct (Nat.eqb_spec x i) as [->|Nx]; [rewrite N|]; reflexivity.
   Qed.
 
   (* ================= the step machine reaches what [eval] computes ================= *)
-  Definition nest_steps (nest : Z -> Z -> param -> option (Z * list seen)) : Prop :=
-    forall cty p stk tr n t ty0 rp0 c0,
-      nest (Z.of_nat (length stk) + 1) cty p = Some (n, t) ->
-      exists k, iter k (TRun ty0 rp0 (PCall cty p c0) stk tr)
-                = TRun ty0 rp0 (c0 n) stk (tr ++ t ++ [VCall (Z.of_nat (length stk)) cty n]).
+  Definition nest_steps (nest : alist F -> Z -> Z -> param -> option (Z * list seen * alist F))
+    : Prop :=
+    forall tab cty p stk tr n t tab1 ty0 rp0 c0,
+      nest tab (Z.of_nat (length stk) + 1) cty p = Some (n, t, tab1) ->
+      exists k, iter k (tab, TRun ty0 rp0 (PCall cty p c0) stk tr)
+                = (tab1, TRun ty0 rp0 (c0 n) stk (tr ++ t ++ [VCall (Z.of_nat (length stk)) cty n])).
 
-  Lemma pre_some {A} l (x : option (A * list seen)) a t :
-    pre l x = Some (a, t) -> exists t', x = Some (a, t') /\ t = l ++ t'.
+  Lemma pre_some {A} l (x : option (A * list seen * alist F)) a t tb :
+    pre l x = Some (a, t, tb) -> exists t', x = Some (a, t', tb) /\ t = l ++ t'.
   Proof.
-    unfold pre. destruct x as [[a' t']|]; [|discriminate]. intro E. inv E. eauto.
+    unfold pre. destruct x as [[[a' t'] tb']|]; [|discriminate]. intro E. inv E. eauto.
   Qed.
 
   Lemma evalp_steps nest : nest_steps nest ->
-    forall pc ty rp stk tr r t,
-      evalp nest (Z.of_nat (length stk)) pc ty rp = Some (r, t) ->
-      exists k, iter k (TRun ty rp pc stk tr) = ret (name_of r) stk (tr ++ t).
+    forall pc tab ty rp stk tr r t tab1,
+      evalp nest tab (Z.of_nat (length stk)) pc ty rp = Some (r, t, tab1) ->
+      exists k, iter k (tab, TRun ty rp pc stk tr) = (tab1, ret (name_of r) stk (tr ++ t)).
   Proof.
-    intros Hn pc. induction pc as [r0|key c IH|c IH|cty p c IH|c IH]; intros ty rp stk tr r t E;
-      cbn [evalp] in E.
+    intros Hn pc. induction pc as [r0|key c IH|c IH|cty p c IH|rty f c IH|c IH];
+      intros tab ty rp stk tr r t tab1 E; cbn [evalp] in E.
     - inv E. exists 1%nat. rewrite app_nil_r. reflexivity.
     - destruct rp as [|dd|dd].
       + inv E. exists 1%nat. rewrite app_nil_r. reflexivity.
       + apply pre_some in E. destruct E as [t' [E ->]].
-        destruct (IH _ ty (RPSess dd) stk (tr ++ [VGet (Z.of_nat (length stk)) key (dget key dd)]) r t' E)
+        destruct (IH _ tab ty (RPSess dd) stk (tr ++ [VGet (Z.of_nat (length stk)) key (dget key dd)]) r t' tab1 E)
           as [k Hk].
         exists (S k). rewrite iter_S. cbn [Model.tstep]. rewrite Hk, <- app_assoc. reflexivity.
       + apply pre_some in E. destruct E as [t' [E ->]].
-        destruct (IH _ ty (RPMap dd) stk (tr ++ [VGet (Z.of_nat (length stk)) key (dget key dd)]) r t' E)
+        destruct (IH _ tab ty (RPMap dd) stk (tr ++ [VGet (Z.of_nat (length stk)) key (dget key dd)]) r t' tab1 E)
           as [k Hk].
         exists (S k). rewrite iter_S. cbn [Model.tstep]. rewrite Hk, <- app_assoc. reflexivity.
     - apply pre_some in E. destruct E as [t' [E ->]].
-      destruct (IH _ ty rp stk (tr ++ [VKind (Z.of_nat (length stk)) ty (kind_of rp)]) r t' E) as [k Hk].
+      destruct (IH _ tab ty rp stk (tr ++ [VKind (Z.of_nat (length stk)) ty (kind_of rp)]) r t' tab1 E)
+        as [k Hk].
       exists (S k). rewrite iter_S. cbn [Model.tstep]. rewrite Hk, <- app_assoc. reflexivity.
-    - destruct (nest (Z.of_nat (length stk) + 1) cty p) as [[n tn]|] eqn:N; [|discriminate].
+    - destruct (nest tab (Z.of_nat (length stk) + 1) cty p) as [[[n tn] tabn]|] eqn:N; [|discriminate].
       apply pre_some in E. destruct E as [t' [E ->]].
-      destruct (Hn cty p stk tr n tn ty rp c N) as [k1 H1].
-      destruct (IH n ty rp stk (tr ++ tn ++ [VCall (Z.of_nat (length stk)) cty n]) r t' E) as [k2 H2].
+      destruct (Hn tab cty p stk tr n tn tabn ty rp c N) as [k1 H1].
+      destruct (IH n tabn ty rp stk (tr ++ tn ++ [VCall (Z.of_nat (length stk)) cty n]) r t' tab1 E)
+        as [k2 H2].
       exists (k1 + k2)%nat. rewrite iter_add, H1, H2, <- !app_assoc. reflexivity.
-    - destruct (IH ty rp stk tr r t E) as [k Hk]. exists (S k). rewrite iter_S. exact Hk.
+    - destruct (IH (treg rty f tab) ty rp stk tr r t tab1 E) as [k Hk].
+      exists (S k). rewrite iter_S. exact Hk.
+    - destruct (IH tab ty rp stk tr r t tab1 E) as [k Hk]. exists (S k). rewrite iter_S. exact Hk.
   Qed.
 
   Lemma eval_nest_steps fuel : nest_steps (eval fuel).
   Proof.
-    induction fuel as [|f IH]; intros cty p stk tr n t ty0 rp0 c0 E; cbn [Model.eval] in E.
-    - destruct (enter cty p) as [n0|[rp2 pc2]] eqn:En; [|discriminate]. inv E.
+    induction fuel as [|f IH]; intros tab cty p stk tr n t tab1 ty0 rp0 c0 E; cbn [Model.eval] in E.
+    - destruct (enter tab cty p) as [n0|[rp2 pc2]] eqn:En; [|discriminate]. inv E.
       exists 1%nat. rewrite iter_S. cbn [Model.tstep]. rewrite En. reflexivity.
-    - destruct (enter cty p) as [n0|[rp2 pc2]] eqn:En.
+    - destruct (enter tab cty p) as [n0|[rp2 pc2]] eqn:En.
       + inv E. exists 1%nat. rewrite iter_S. cbn [Model.tstep]. rewrite En. reflexivity.
-      + destruct (evalp (eval f) (Z.of_nat (length stk) + 1) pc2 cty rp2) as [[r t']|] eqn:Ev;
+      + destruct (evalp (eval f) tab (Z.of_nat (length stk) + 1) pc2 cty rp2) as [[[r t'] tb']|] eqn:Ev;
           [|discriminate]. inv E.
         assert (L : Z.of_nat (length stk) + 1 = Z.of_nat (length (W ty0 rp0 c0 cty :: stk))).
         { cbn [length]. lia. }
         rewrite L in Ev.
-        destruct (evalp_steps (eval f) IH pc2 cty rp2 (W ty0 rp0 c0 cty :: stk) tr r t Ev) as [k Hk].
+        destruct (evalp_steps (eval f) IH pc2 tab cty rp2 (W ty0 rp0 c0 cty :: stk) tr r t tab1 Ev)
+          as [k Hk].
         exists (S k). rewrite iter_S. cbn [Model.tstep]. rewrite En, Hk. cbn [ret].
         rewrite <- app_assoc. reflexivity.
   Qed.
 
   (* C07_eval_adequate *)
-  Lemma eval_adequate fuel ty p n t :
-    eval fuel 0 ty p = Some (n, t) ->
-    exists k, forall j, (k <= j)%nat -> iter j (start ty p) = TDone n t.
+  Lemma eval_adequate fuel tab ty p n t tab1 :
+    eval fuel tab 0 ty p = Some (n, t, tab1) ->
+    exists k, forall j, (k <= j)%nat -> iter j (tab, TInit (Some (ty, p))) = (tab1, TDone n t).
   Proof.
-    intro E. unfold Model.start.
-    assert (S0 : exists k, iter k (match enter ty p with
-                                   | inl n0 => TDone n0 []
-                                   | inr (rp, pc) => TRun ty rp pc [] []
-                                   end) = TDone n t).
-    { destruct fuel as [|f]; cbn [Model.eval] in E; destruct (enter ty p) as [n0|[rp pc]] eqn:En.
+    intro E.
+    assert (S0 : exists k, iter k (tab, begin tab (Some (ty, p))) = (tab1, TDone n t)).
+    { unfold Model.begin.
+      destruct fuel as [|f]; cbn [Model.eval] in E; destruct (enter tab ty p) as [n0|[rp pc]] eqn:En.
       - inv E. exists 0%nat. reflexivity.
       - discriminate.
       - inv E. exists 0%nat. reflexivity.
-      - destruct (evalp (eval f) 0 pc ty rp) as [[r t']|] eqn:Ev; [|discriminate]. inv E.
-        destruct (evalp_steps (eval f) (eval_nest_steps f) pc ty rp [] [] r t Ev) as [k Hk].
+      - destruct (evalp (eval f) tab 0 pc ty rp) as [[[r t'] tb']|] eqn:Ev; [|discriminate]. inv E.
+        destruct (evalp_steps (eval f) (eval_nest_steps f) pc tab ty rp [] [] r t tab1 Ev) as [k Hk].
         exists k. exact Hk. }
-    destruct S0 as [k Hk]. exists k. intros j Le.
-    replace j with (k + (j - k))%nat by lia. rewrite iter_add, Hk. apply iter_done.
+    destruct S0 as [k Hk]. exists (S k). intros j Le.
+    replace j with (S k + (j - S k))%nat by lia. rewrite iter_add, iter_S. cbn [Model.tstep].
+    rewrite Hk. apply iter_done.
   Qed.
 
-  (* C07_concurrent_calls_isolated *)
-  Lemma concurrent_isolated fuel (cs : list (Z * param)) i ty p n t :
-    nth_error cs i = Some (ty, p) ->
-    eval fuel 0 ty p = Some (n, t) ->
-    exists k, forall sched, (k <= ncount i sched)%nat ->
-      nth_error (prun sched (map (fun c => start (fst c) (snd c)) cs)) i = Some (TDone n t).
-  Proof.
-    intros I E. destruct (eval_adequate fuel ty p n t E) as [k Hk]. exists k. intros sched Le.
-    rewrite prun_nth, nth_error_map, I. simpl. rewrite (Hk _ Le). reflexivity.
-  Qed.
-
-  (* ================= what a rule sees ================= *)
-  Definition nest_deep (nest : Z -> Z -> param -> option (Z * list seen)) : Prop :=
-    forall d cty p n t, nest d cty p = Some (n, t) -> Forall (fun e => d <= sdepth e) t.
+  (* ================= what a rule sees: big-step ================= *)
+  Definition nest_deep (nest : alist F -> Z -> Z -> param -> option (Z * list seen * alist F))
+    : Prop :=
+    forall tab d cty p n t tab1, nest tab d cty p = Some (n, t, tab1) -> Forall (fun e => d <= sdepth e) t.
 
   Lemma evalp_deep nest : nest_deep nest ->
-    forall pc d ty rp r t, evalp nest d pc ty rp = Some (r, t) -> Forall (fun e => d <= sdepth e) t.
+    forall pc tab d ty rp r t tab1,
+      evalp nest tab d pc ty rp = Some (r, t, tab1) -> Forall (fun e => d <= sdepth e) t.
   Proof.
-    intros Hn pc. induction pc as [r0|key c IH|c IH|cty p c IH|c IH]; intros d ty rp r t E;
-      cbn [evalp] in E.
+    intros Hn pc. induction pc as [r0|key c IH|c IH|cty p c IH|rty f c IH|c IH];
+      intros tab d ty rp r t tab1 E; cbn [evalp] in E.
     - inv E. constructor.
     - destruct rp as [|dd|dd]; [inv E; constructor| |];
         apply pre_some in E; destruct E as [t' [E ->]]; (constructor; [simpl; lia | eapply IH; exact E]).
     - apply pre_some in E. destruct E as [t' [E ->]]. constructor; [simpl; lia | eapply IH; exact E].
-    - destruct (nest (d + 1) cty p) as [[n tn]|] eqn:N; [|discriminate].
+    - destruct (nest tab (d + 1) cty p) as [[[n tn] tabn]|] eqn:N; [|discriminate].
       apply pre_some in E. destruct E as [t' [E ->]].
       rewrite <- app_assoc. apply Forall_app. split.
-      + eapply Forall_impl; [|exact (Hn _ _ _ _ _ N)]. intros e H. cbv beta in *. lia.
+      + eapply Forall_impl; [|exact (Hn _ _ _ _ _ _ _ N)]. intros e H. cbv beta in *. lia.
       + constructor; [simpl; lia | eapply IH; exact E].
+    - eapply IH. exact E.
     - eapply IH. exact E.
   Qed.
 
   Lemma eval_deep fuel : nest_deep (eval fuel).
   Proof.
-    induction fuel as [|f IH]; intros d cty p n t E; cbn [Model.eval] in E;
-      destruct (enter cty p) as [n0|[rp pc]]; try discriminate; try (inv E; constructor).
-    destruct (evalp (eval f) d pc cty rp) as [[r t']|] eqn:Ev; [|discriminate]. inv E.
+    induction fuel as [|f IH]; intros tab d cty p n t tab1 E; cbn [Model.eval] in E;
+      destruct (enter tab cty p) as [n0|[rp pc]]; try discriminate; try (inv E; constructor).
+    destruct (evalp (eval f) tab d pc cty rp) as [[[r t'] tb']|] eqn:Ev; [|discriminate]. inv E.
     eapply evalp_deep; [exact IH | exact Ev].
   Qed.
 
   Lemma evalp_own nest ty p rp : nest_deep nest -> to_rparam p = Some rp ->
-    forall pc r t, evalp nest 0 pc ty rp = Some (r, t) -> sees_own ty p t.
+    forall pc tab r t tab1, evalp nest tab 0 pc ty rp = Some (r, t, tab1) -> sees_own ty p t.
   Proof.
     intros Hn P pc. unfold sees_own.
-    induction pc as [r0|key c IH|c IH|cty q c IH|c IH]; intros r t E; cbn [evalp] in E.
+    induction pc as [r0|key c IH|c IH|cty q c IH|rty f c IH|c IH]; intros tab r t tab1 E;
+      cbn [evalp] in E.
     - inv E. constructor.
     - destruct rp as [|dd|dd]; [inv E; constructor| |];
         apply pre_some in E; destruct E as [t' [E ->]]; (constructor; [|eapply IH; exact E]);
         intros _; exists dd; auto.
     - apply pre_some in E. destruct E as [t' [E ->]]. constructor; [|eapply IH; exact E].
       intros _. split; [reflexivity|]. exists rp. auto.
-    - destruct (nest (0 + 1) cty q) as [[n tn]|] eqn:N; [|discriminate].
+    - destruct (nest tab (0 + 1) cty q) as [[[n tn] tabn]|] eqn:N; [|discriminate].
       apply pre_some in E. destruct E as [t' [E ->]].
       rewrite <- app_assoc. apply Forall_app. split.
-      + eapply Forall_impl; [|exact (Hn _ _ _ _ _ N)]. intros e H D. cbv beta in H. lia.
+      + eapply Forall_impl; [|exact (Hn _ _ _ _ _ _ _ N)]. intros e H D. cbv beta in H. lia.
       + constructor; [intros _; exact I | eapply IH; exact E].
+    - eapply IH. exact E.
     - eapply IH. exact E.
   Qed.
 
-  (* C07_rule_sees_own_param *)
-  Lemma eval_sees_own fuel ty p n t : eval fuel 0 ty p = Some (n, t) -> sees_own ty p t.
+  (* C07_rule_sees_own_param (a call made alone) *)
+  Lemma eval_sees_own fuel tab ty p n t tab1 :
+    eval fuel tab 0 ty p = Some (n, t, tab1) -> sees_own ty p t.
   Proof.
     intro E. destruct fuel as [|f]; cbn [Model.eval] in E;
-      destruct (enter ty p) as [n0|[rp pc]] eqn:En; try discriminate; try (inv E; constructor).
-    destruct (evalp (eval f) 0 pc ty rp) as [[r t']|] eqn:Ev; [|discriminate]. inv E.
+      destruct (enter tab ty p) as [n0|[rp pc]] eqn:En; try discriminate; try (inv E; constructor).
+    destruct (evalp (eval f) tab 0 pc ty rp) as [[[r t'] tb']|] eqn:Ev; [|discriminate]. inv E.
     apply enter_inr in En. destruct En as [P _].
     eapply evalp_own; [apply eval_deep | exact P | exact Ev].
   Qed.
 
-  Lemma call_trace_sees_own c t : call_trace rules dflt c = Some t -> call_sees_own c t.
+  (* ================= what a rule sees: any schedule, any registrations ================= *)
+  Fixpoint bot (ty : Z) (rp : rparam) (stk : list (wait F)) : Z * rparam :=
+    match stk with
+    | [] => (ty, rp)
+    | W ty' rp' _ _ :: s => bot ty' rp' s
+    end.
+
+  (* the goroutine that makes call k: the rule at the bottom of its stack is the one consulted
+     for ITS call and holds ITS parameter; what has been seen so far is consistent with it *)
+  Definition tinv (k : option (Z * param)) (t : thread F) : Prop :=
+    match t with
+    | TInit k' => k' = k
+    | TDone _ tr => match k with Some (ty, p) => sees_own ty p tr | None => tr = [] end
+    | TRun ty rp _ stk tr =>
+        exists ty0 p0 rp0, k = Some (ty0, p0) /\ to_rparam p0 = Some rp0
+                           /\ bot ty rp stk = (ty0, rp0) /\ sees_own ty0 p0 tr
+    end.
+
+  Lemma sees_own_snoc ty p tr e : sees_own ty p tr -> own_seen ty p e -> sees_own ty p (tr ++ [e]).
+  Proof. intros H He. apply Forall_app. split; [exact H | constructor; [exact He | constructor]]. Qed.
+
+  Lemma ret_inv ty0 p0 rp0 ty rp n stk tr :
+    to_rparam p0 = Some rp0 -> bot ty rp stk = (ty0, rp0) -> sees_own ty0 p0 tr ->
+    tinv (Some (ty0, p0)) (ret n stk tr).
   Proof.
-    unfold call_trace, call_sees_own. destruct (call_key c) as [[ty p]|].
-    - destruct (eval NEST_FUEL 0 ty p) as [[n t']|] eqn:E; simpl; [|discriminate].
-      intro H. inv H. eapply eval_sees_own. exact E.
-    - intro H. inv H. reflexivity.
+    intros P B S. destruct stk as [|[ty' rp' c cty] s]; simpl; [exact S|].
+    exists ty0, p0, rp0. repeat split; try assumption.
+    apply sees_own_snoc; [exact S | intros _; exact I].
+  Qed.
+
+  Lemma tstep_inv k tab t : tinv k t -> tinv k (snd (tstep tab t)).
+  Proof.
+    intro H. destruct t as [k'|ty rp pc stk tr|n tr]; [| |exact H].
+    - simpl in H. subst k'. simpl. destruct k as [[ty p]|]; simpl; [|reflexivity].
+      destruct (enter tab ty p) as [n|[rp pc]] eqn:E; simpl; [constructor|].
+      apply enter_inr in E. destruct E as [P _].
+      exists ty, p, rp. repeat split; try assumption. constructor.
+    - destruct H as [ty0 [p0 [rp0 [-> [P [B S]]]]]].
+      assert (D0 : Z.of_nat (length stk) = 0 -> stk = []).
+      { destruct stk; [reflexivity | simpl; lia]. }
+      destruct pc as [r|key c|c|cty p c|rty f c|c]; simpl.
+      + eapply ret_inv; eassumption.
+      + destruct rp as [|dd|dd]; simpl; [eapply ret_inv; eassumption| |];
+          (exists ty0, p0, rp0; repeat split; try assumption;
+           apply sees_own_snoc; [exact S|]; intro D; simpl in D; apply D0 in D; subst stk;
+           simpl in B; inv B; exists dd; auto).
+      + exists ty0, p0, rp0. repeat split; try assumption.
+        apply sees_own_snoc; [exact S|]. intro D. simpl in D. apply D0 in D. subst stk.
+        simpl in B. inv B. split; [reflexivity|]. exists rp0. auto.
+      + destruct (enter tab cty p) as [n|[rp2 pc2]] eqn:E; simpl.
+        * exists ty0, p0, rp0. repeat split; try assumption.
+          apply sees_own_snoc; [exact S | intros _; exact I].
+        * exists ty0, p0, rp0. repeat split; assumption.
+      + exists ty0, p0, rp0. repeat split; assumption.
+      + exists ty0, p0, rp0. repeat split; assumption.
+  Qed.
+
+  Lemma tinv_done k n tr : tinv k (TDone n tr) ->
+    match k with Some (ty, p) => sees_own ty p tr | None => tr = [] end.
+  Proof. intro H. exact H. Qed.
+
+  (* C07_rule_sees_own_param_any_schedule *)
+  Lemma pexec_inv ks st e : Forall2 tinv ks (snd st) -> Forall2 tinv ks (snd (pexec st e)).
+  Proof.
+    intro H. destruct e as [i|ty f]; [|exact H]. unfold Model.pexec.
+    destruct (nth_error (snd st) i) as [t|] eqn:N; [|exact H]. cbn [snd].
+    destruct (Forall2_nth _ _ _ _ _ H N) as [k [Nk Tk]].
+    eapply Forall2_upd; [exact H | exact Nk | apply tstep_inv; exact Tk].
+  Qed.
+
+  Lemma prun_inv ks sched : forall st, Forall2 tinv ks (snd st) -> Forall2 tinv ks (snd (prun sched st)).
+  Proof.
+    unfold Model.prun. induction sched as [|e r IH]; intros st H; simpl; [exact H|].
+    apply IH. apply pexec_inv. exact H.
+  Qed.
+
+  Lemma init_inv ks : Forall2 tinv ks (map TInit ks).
+  Proof. induction ks as [|k r IH]; simpl; constructor; [reflexivity | exact IH]. Qed.
+
+  (* ---- the harness scheduler is made of such steps ---- *)
+  Lemma macro_inv k fuel : forall tab t tab' t',
+    tinv k t -> macro fuel tab t = Some (tab', t') -> tinv k t'.
+  Proof.
+    induction fuel as [|f IH]; intros tab t tab' t' H E; cbn [Model.macro] in E; [discriminate|].
+    destruct (is_done t).
+    - inv E. exact H.
+    - destruct (at_yield t).
+      + rewrite (surjective_pairing (tstep tab t)) in E. inv E. apply tstep_inv. exact H.
+      + eapply IH; [|exact E]. apply tstep_inv. exact H.
+  Qed.
+
+  Lemma macro_iter fuel : forall tab t tab' t',
+    macro fuel tab t = Some (tab', t') -> exists k, iter k (tab, t) = (tab', t').
+  Proof.
+    induction fuel as [|f IH]; intros tab t tab' t' E; cbn [Model.macro] in E; [discriminate|].
+    destruct (is_done t).
+    - inv E. exists 0%nat. reflexivity.
+    - destruct (at_yield t).
+      + exists 1%nat. rewrite iter_S. simpl. rewrite (surjective_pairing (tstep tab t)) in E. inv E.
+        apply surjective_pairing.
+      + apply IH in E. destruct E as [k Hk]. exists (S k). rewrite iter_S.
+        rewrite (surjective_pairing (tstep tab t)). exact Hk.
+  Qed.
+
+  Definition sst_inv (ks : list (option (Z * param))) (st : sst F) : Prop :=
+    Forall2 tinv ks (snd (fst st)).
+
+  Lemma run_one_inv ks i st st' : sst_inv ks st -> run_one i st = Some st' -> sst_inv ks st'.
+  Proof.
+    destruct st as [[tab pool] ent]. unfold sst_inv, Model.run_one. cbn [fst snd]. intros H E.
+    destruct (nth_error pool i) as [t|] eqn:N; [|inv E; exact H].
+    destruct (macro STEP_FUEL tab t) as [[tab' t']|] eqn:M; [|discriminate]. inv E. cbn [fst snd].
+    destruct (Forall2_nth _ _ _ _ _ H N) as [k [Nk Tk]].
+    eapply Forall2_upd; [exact H | exact Nk | eapply macro_inv; eassumption].
+  Qed.
+
+  Lemma sim_sched_inv ks sched : forall st st',
+    sst_inv ks st -> sim_sched sched st = Some st' -> sst_inv ks st'.
+  Proof.
+    induction sched as [|e r IH]; intros [[tab pool] ent] st' H E; cbn [Model.sim_sched] in E.
+    - inv E. exact H.
+    - destruct (all_done pool); [inv E; exact H|].
+      destruct e as [k|ty f].
+      + destruct (done_at pool (Z.to_nat (k mod Z.of_nat (length pool)))); [eapply IH; eassumption|].
+        destruct (run_one (Z.to_nat (k mod Z.of_nat (length pool))) (tab, pool, ent)) as [st1|] eqn:R;
+          [|discriminate].
+        eapply IH; [|exact E]. eapply run_one_inv; eassumption.
+      + eapply IH; [|exact E]. exact H.
+  Qed.
+
+  Lemma sim_rr_inv ks fuel : forall rr st st',
+    sst_inv ks st -> sim_rr fuel rr st = Some st' -> sst_inv ks st'.
+  Proof.
+    induction fuel as [|f IH]; intros rr [[tab pool] ent] st' H E; cbn [Model.sim_rr] in E.
+    - destruct (all_done pool); [inv E; exact H | discriminate].
+    - destruct (all_done pool); [inv E; exact H|].
+      destruct (done_at pool (Nat.modulo rr (length pool))); [eapply IH; eassumption|].
+      destruct (run_one (Nat.modulo rr (length pool)) (tab, pool, ent)) as [st1|] eqn:R; [|discriminate].
+      eapply IH; [|exact E]. eapply run_one_inv; eassumption.
+  Qed.
+
+  Lemma sim_inv tab ks sched tab' pool ent :
+    sim tab ks sched = Some (tab', pool, ent) -> Forall2 tinv ks pool.
+  Proof.
+    unfold Model.sim. intro E.
+    destruct (sim_sched sched (tab, map TInit ks, map (fun _ => tab) ks)) as [st1|] eqn:S1; [|discriminate].
+    assert (H1 : sst_inv ks st1).
+    { eapply sim_sched_inv; [|exact S1]. unfold sst_inv. cbn [fst snd]. apply init_inv. }
+    exact (sim_rr_inv ks _ _ _ _ H1 E).
   Qed.
 
   (* ================= a nested call is a call ================= *)
@@ -283,113 +569,115 @@ Section ProgProofs.
     | VCall x t n => VCall (x + d) t n
     end.
 
-  Definition shifted {A} (d : Z) (x : option (A * list seen)) : option (A * list seen) :=
-    match x with Some (a, t) => Some (a, map (shift d) t) | None => None end.
+  Definition shifted {A} (d : Z) (x : option (A * list seen * alist F))
+    : option (A * list seen * alist F) :=
+    match x with Some (a, t, tb) => Some (a, map (shift d) t, tb) | None => None end.
 
-  Definition nest_shift (nest : Z -> Z -> param -> option (Z * list seen)) : Prop :=
-    forall d cty p, nest d cty p = shifted d (nest 0 cty p).
+  Definition nest_shift (nest : alist F -> Z -> Z -> param -> option (Z * list seen * alist F))
+    : Prop :=
+    forall tab d cty p, nest tab d cty p = shifted d (nest tab 0 cty p).
 
   Lemma shift_shift a b e : shift a (shift b e) = shift (b + a) e.
   Proof. destruct e; simpl; f_equal; lia. Qed.
 
-  Lemma shifted_pre {A} d l (x : option (A * list seen)) :
+  Lemma shifted_pre {A} d l (x : option (A * list seen * alist F)) :
     shifted d (pre l x) = pre (map (shift d) l) (shifted d x).
-  Proof. destruct x as [[a t]|]; simpl; [rewrite map_app|]; reflexivity. Qed.
+  Proof. destruct x as [[[a t] tb]|]; simpl; [rewrite map_app|]; reflexivity. Qed.
 
   Lemma evalp_shift nest : nest_shift nest ->
-    forall pc d ty rp, evalp nest d pc ty rp = shifted d (evalp nest 0 pc ty rp).
+    forall pc tab d ty rp, evalp nest tab d pc ty rp = shifted d (evalp nest tab 0 pc ty rp).
   Proof.
-    intros Hn pc. induction pc as [r0|key c IH|c IH|cty p c IH|c IH]; intros d ty rp; cbn [evalp].
+    intros Hn pc. induction pc as [r0|key c IH|c IH|cty p c IH|rty f c IH|c IH];
+      intros tab d ty rp; cbn [evalp].
     - reflexivity.
     - destruct rp as [|dd|dd]; [reflexivity| |]; rewrite shifted_pre, <- IH; reflexivity.
     - rewrite shifted_pre, <- IH. reflexivity.
-    - rewrite (Hn (d + 1)), (Hn (0 + 1)).
-      destruct (nest 0 cty p) as [[n tn]|]; simpl; [|reflexivity].
+    - rewrite (Hn tab (d + 1)), (Hn tab (0 + 1)).
+      destruct (nest tab 0 cty p) as [[[n tn] tabn]|]; simpl; [|reflexivity].
       rewrite shifted_pre, <- IH. f_equal.
       rewrite map_app, map_map. simpl. f_equal.
       apply map_ext. intro e. rewrite shift_shift. f_equal. lia.
+    - apply IH.
     - apply IH.
   Qed.
 
   (* C07_nested_call_is_call *)
   Lemma eval_shift fuel : nest_shift (eval fuel).
   Proof.
-    induction fuel as [|f IH]; intros d cty p; cbn [Model.eval];
-      destruct (enter cty p) as [n0|[rp pc]]; try reflexivity.
-    rewrite (evalp_shift (eval f) IH pc d).
-    destruct (evalp (eval f) 0 pc cty rp) as [[r t]|]; reflexivity.
+    induction fuel as [|f IH]; intros tab d cty p; cbn [Model.eval];
+      destruct (enter tab cty p) as [n0|[rp pc]]; try reflexivity.
+    rewrite (evalp_shift (eval f) IH pc tab d).
+    destruct (evalp (eval f) tab 0 pc cty rp) as [[[r t] tb]|]; reflexivity.
   Qed.
 
   (* ================= the answer is the answer of [route] ================= *)
-  (* what the rule answers, as the function the rest of the model talks about *)
-  Definition den (fuel : nat) (d : Z) (r : rule) : rfn :=
-    fun ty rp => match evalp (eval fuel) d (r ty) ty rp with
-                 | Some (x, _) => x
+  (* what the rule answers when started with the rules [tab], as the function the rest of the
+     model talks about *)
+  Definition den (fuel : nat) (tab : alist F) (d : Z) (r : rule F) : rfn :=
+    fun ty rp => match evalp (eval fuel) tab d (r ty) ty rp with
+                 | Some (x, _, _) => x
                  | None => RPanic
                  end.
 
   (* C07_nested_result *)
-  Lemma eval_route fuel d ty p n t :
-    eval (S fuel) d ty p = Some (n, t) ->
-    n = route (fun t0 => option_map (den fuel d) (rules t0)) (option_map (den fuel d) dflt) p ty.
+  Lemma eval_route fuel tab d ty p n t tab1 :
+    eval (S fuel) tab d ty p = Some (n, t, tab1) ->
+    n = route (fun t0 => option_map (den fuel tab d) (option_map pinterp (aget t0 tab)))
+              (option_map (den fuel tab d) dflt) p ty.
   Proof.
     cbn [Model.eval]. unfold Model.enter, route, do_route, pick, pickr, den.
     destruct p as [|dd|dd|n0|k]; simpl;
       try (intro E; inv E; reflexivity);
-      destruct (rules ty) as [r|]; simpl; try destruct dflt as [r|]; simpl;
+      destruct (aget ty tab) as [f|]; simpl; try destruct dflt as [r|]; simpl;
       try (intro E; inv E; reflexivity);
-      match goal with |- context [evalp ?nest d (r ty) ty ?rp] =>
-        destruct (evalp nest d (r ty) ty rp) as [[x t']|] end;
+      match goal with |- context [evalp ?nest tab d ?pc ty ?rp] =>
+        destruct (evalp nest tab d pc ty rp) as [[[x t'] tb']|] end;
       intro E; inv E; destruct x; reflexivity.
+  Qed.
+
+  (* ================= rules that do not register leave the registered rules alone ========= *)
+  Definition nest_keeps (nest : alist F -> Z -> Z -> param -> option (Z * list seen * alist F))
+    : Prop :=
+    forall tab d cty p n t tab1, rules_regfree tab -> nest tab d cty p = Some (n, t, tab1) -> tab1 = tab.
+
+  Lemma evalp_keeps nest : nest_keeps nest ->
+    forall pc tab d ty rp r t tab1, rules_regfree tab -> regfree pc ->
+      evalp nest tab d pc ty rp = Some (r, t, tab1) -> tab1 = tab.
+  Proof.
+    intros Hn pc. induction pc as [r0|key c IH|c IH|cty p c IH|rty f c IH|c IH];
+      intros tab d ty rp r t tab1 R G E; cbn [evalp] in E; simpl in G.
+    - inv E. reflexivity.
+    - destruct rp as [|dd|dd]; [inv E; reflexivity| |];
+        apply pre_some in E; destruct E as [t' [E _]]; eapply IH; eauto.
+    - apply pre_some in E. destruct E as [t' [E _]]. eapply IH; eauto.
+    - destruct (nest tab (d + 1) cty p) as [[[n tn] tabn]|] eqn:N; [|discriminate].
+      apply pre_some in E. destruct E as [t' [E _]].
+      pose proof (Hn _ _ _ _ _ _ _ R N) as ->. eapply IH; eauto.
+    - contradiction.
+    - eapply IH; eauto.
+  Qed.
+
+  Lemma eval_keeps fuel : nest_keeps (eval fuel).
+  Proof.
+    induction fuel as [|f IH]; intros tab d cty p n t tab1 R E; cbn [Model.eval] in E;
+      destruct (enter tab cty p) as [n0|[rp pc]] eqn:En; try discriminate; try (inv E; reflexivity).
+    destruct (evalp (eval f) tab d pc cty rp) as [[[r t'] tb']|] eqn:Ev; [|discriminate]. inv E.
+    eapply evalp_keeps; [exact IH | exact R | eapply enter_regfree; eassumption | exact Ev].
   Qed.
 End ProgProofs.
 
-(* ================= the registered rules matter pointwise only ================= *)
-Lemma enter_ext rules rules' dflt ty p :
-  (forall t, rules t = rules' t) -> enter rules dflt ty p = enter rules' dflt ty p.
-Proof. intro E. unfold enter. rewrite E. reflexivity. Qed.
-
-Lemma evalp_nest_ext nest nest' :
-  (forall d ty p, nest d ty p = nest' d ty p) ->
-  forall pc d ty rp, evalp nest d pc ty rp = evalp nest' d pc ty rp.
-Proof.
-  intros E pc. induction pc as [r0|key c IH|c IH|cty p c IH|c IH]; intros d ty rp; cbn [evalp].
-  - reflexivity.
-  - destruct rp; [reflexivity| |]; rewrite IH; reflexivity.
-  - rewrite IH. reflexivity.
-  - rewrite E. destruct (nest' (d + 1) cty p) as [[n t]|]; [|reflexivity]. rewrite IH. reflexivity.
-  - apply IH.
-Qed.
-
-Lemma eval_ext rules rules' dflt :
-  (forall t, rules t = rules' t) ->
-  forall fuel d ty p, eval rules dflt fuel d ty p = eval rules' dflt fuel d ty p.
-Proof.
-  intros E fuel. induction fuel as [|f IH]; intros d ty p; cbn [eval];
-    rewrite (enter_ext rules rules' dflt ty p E); [reflexivity|].
-  destruct (enter rules' dflt ty p) as [n|[rp pc]]; [reflexivity|].
-  rewrite (evalp_nest_ext _ _ IH). reflexivity.
-Qed.
-
-Lemma call_trace_ext rules rules' dflt c :
-  (forall t, rules t = rules' t) -> call_trace rules dflt c = call_trace rules' dflt c.
-Proof.
-  intro E. unfold call_trace. destruct (call_key c) as [[ty p]|]; [|reflexivity].
-  rewrite (eval_ext rules rules' dflt E). reflexivity.
-Qed.
-
 (* ================= scripted functions: program and answer agree ================= *)
-Lemma pre_prog_result nest d pre0 k ty rp r t :
-  evalp nest d (pre_prog pre0 k) ty rp = Some (r, t) ->
+Lemma pre_prog_result nest tab d pre0 k ty rp r t tab1 :
+  evalp nest tab d (pre_prog pre0 k) ty rp = Some (r, t, tab1) ->
   (rp = RPNil /\ existsb is_get pre0 = true /\ r = RPanic)
   \/ ((rp = RPNil -> existsb is_get pre0 = false)
-      /\ exists t', evalp nest d k ty rp = Some (r, t')).
+      /\ exists tab' t', evalp nest tab' d k ty rp = Some (r, t', tab1)).
 Proof.
-  revert t. induction pre0 as [|a pr IH]; intros t E; cbn [pre_prog] in E.
+  revert tab t. induction pre0 as [|a pr IH]; intros tab t E; cbn [pre_prog] in E.
   - right. split; [reflexivity | eauto].
-  - destruct a as [|cty p|key]; cbn [evalp] in E.
+  - destruct a as [|cty p|key|rty f]; cbn [evalp] in E.
     + apply IH in E. exact E.
-    + destruct (nest (d + 1) cty p) as [[n tn]|]; [|discriminate].
+    + destruct (nest tab (d + 1) cty p) as [[[n tn] tabn]|]; [|discriminate].
       apply pre_some in E. destruct E as [t' [E _]]. apply IH in E. exact E.
     + destruct rp as [|dd|dd].
       * inv E. left. auto.
@@ -397,12 +685,13 @@ Proof.
         destruct E as [[C _]|[_ E]]; [discriminate|]. right. split; [discriminate | exact E].
       * apply pre_some in E. destruct E as [t' [E _]]. apply IH in E.
         destruct E as [[C _]|[_ E]]; [discriminate|]. right. split; [discriminate | exact E].
+    + apply IH in E. exact E.
 Qed.
 
-Lemma body_coherent nest s : forall d ty rp r t,
-  evalp nest d (body s ty) ty rp = Some (r, t) -> r = interp_script s ty rp.
+Lemma body_coherent nest s : forall tab d ty rp r t tab1,
+  evalp nest tab d (body s ty) ty rp = Some (r, t, tab1) -> r = interp_script s ty rp.
 Proof.
-  induction s as [r0|k tbl miss nokey|a b c|tbl miss|pr s' IH]; intros d ty rp r t E;
+  induction s as [r0|k tbl miss nokey|a b c|tbl miss|pr s' IH]; intros tab d ty rp r t tab1 E;
     cbn [body] in E.
   - cbn [evalp] in E. inv E. reflexivity.
   - cbn [evalp] in E. destruct rp as [|dd|dd]; [inv E; reflexivity| |];
@@ -411,14 +700,14 @@ Proof.
   - cbn [evalp] in E. apply pre_some in E. destruct E as [t' [E _]].
     destruct rp; cbn [evalp kind_of] in E; inv E; reflexivity.
   - cbn [evalp] in E. inv E. reflexivity.
-  - apply pre_prog_result in E. destruct E as [[-> [G ->]]|[G [t' E]]].
+  - apply pre_prog_result in E. destruct E as [[-> [G ->]]|[G [tab' [t' E]]]].
     + simpl. rewrite G. reflexivity.
     + apply IH in E. subst r. destruct rp; simpl; try reflexivity. rewrite (G eq_refl). reflexivity.
 Qed.
 
 (* C07_script_coherent *)
-Lemma script_coherent nest s d ty rp r t :
-  evalp nest d (prog_of_script s ty) ty rp = Some (r, t) -> r = interp_script s ty rp.
+Lemma script_coherent nest s tab d ty rp r t tab1 :
+  evalp nest tab d (prog_of_script s ty) ty rp = Some (r, t, tab1) -> r = interp_script s ty rp.
 Proof.
   unfold prog_of_script. cbn [evalp]. intro E. apply pre_some in E. destruct E as [t' [E _]].
   eapply body_coherent. exact E.
